@@ -57,7 +57,8 @@ def main() -> int:
     cov["theorems"] = theorems
     broken: list = []
     if not ok:
-        broken = sorted(set(l.split()[-1] for l in log.splitlines() if l.startswith("✖") or l.startswith("- ")))
+        import re as _re
+        broken = sorted(set(m for l in log.splitlines() if l.startswith("✖") or l.startswith("- ") for m in _re.findall(r"\b(?:BpModel(?:\.\w+)+|bpdrv|Driver)\b", l)))
         run.notes["build_log_tail"] = log[-3000:]
         # the driver only needs the hand-written Model/, try to build it alone
         ok_drv, log2 = common.lake_build(["bpdrv"])
@@ -103,7 +104,10 @@ def main() -> int:
     drv = common.Driver()
     run.drv = drv  # the reference decides whether a generated schema the compiler refused was valid at all (Run.violation)
     proofs_ok = ok and not bad_axioms and not forbidden
-    budget_tier = tier if proofs_ok else "thorough"  # failing-input search gets the thorough budget
+    budget_tier = tier if proofs_ok else "thorough"  # failing-input search gets the thorough budget ...
+    if tier == "quick" and not proofs_ok:
+        import time as _time
+        run.deadline = _time.time() + float(os.environ.get("VERIF_SEARCH_SECONDS", "420"))  # ... for at most seven minutes when the quick check was asked for
     if spec.get("wire_corpus", False):
         from . import corpus, gen
         gen.SchemaGen.corpus_queue = corpus.corpus_schemas()
@@ -117,6 +121,8 @@ def main() -> int:
         run.notes["exploration_error"] = traceback.format_exc()[-2000:]
         run.finish()
         return 2
+    run.stopped_by_deadline = False  # the guard in Run.violation is about the exploration only, never about the verdict below
+    run.deadline = None
     cov["driver_requests"] = drv.requests
 
     # 6. verdict
@@ -130,7 +136,8 @@ def main() -> int:
                  "broken": {"modules": broken, "axioms": bad_axioms, "forbidden": forbidden,
                             "theorems": theorems if not ok else sorted(bad_axioms)},
                  "note": "proof obligations no longer check against the current tree; the failing-input search "
-                         "(thorough budget, implementation vs Lean specification) found no failing input",
+                         "(thorough budget - bounded to seven minutes in the quick tier -, implementation vs Lean specification) "
+                         "found no failing input",
                  "build_log_tail": run.notes.get("build_log_tail", "")[-1500:]},
                 suffix="no-failing-input-found")
         elif disagreements:
